@@ -553,7 +553,16 @@ def _rigid_body(sh, n2p, np, cs, r, uset, grids, spoints, got_idx, rowof, vals, 
         rb_g, bg = results["grid"]
         newref = vals[rowof[refgrid["id"]]]
         try:
-            moved = np.asarray(n2p.rbmove(rb_x, refxyz, newref), float)
+            # reference points handed over as float arrays (what a caller looping over
+            # several reference points holds); the call must leave its inputs alone
+            a_old = np.array(refxyz, float)
+            a_new = np.array(newref, float)
+            keep = (a_old.copy(), a_new.copy(), np.array(rb_x, copy=True))
+            moved = np.asarray(n2p.rbmove(rb_x, a_old, a_new), float)
+            sh.check_equal("rbmove-inputs-unmutated",
+                           bool(np.array_equal(a_old, keep[0]) and
+                                np.array_equal(a_new, keep[1]) and
+                                np.array_equal(np.asarray(rb_x), keep[2])), True, case, tags)
             back = np.asarray(n2p.rbmove(rb_g, newref, refxyz), float)
         except Exception as e:
             sh.violation("exception:rbmove", case, {"exc": repr(e)}, tags)
